@@ -1,8 +1,10 @@
 package main
 
 import (
+	"context"
 	"fmt"
 	"strings"
+	"time"
 
 	evalfilter "github.com/skx/evalfilter/v2"
 	"github.com/skx/evalfilter/v2/verifsim"
@@ -85,6 +87,7 @@ func c09Catalogue() []Shape {
 }
 
 type c09 struct {
+	tier   string
 	shapes []Shape
 	twins  map[string]*c09Twin
 }
@@ -101,16 +104,25 @@ func newC09() *c09 { return &c09{shapes: c09Catalogue(), twins: map[string]*c09T
 
 func (p *c09) ID() string { return "C09" }
 
+// SetTier: the real-timer cases exist in the thorough tier only.
+func (p *c09) SetTier(t string) { p.tier = t }
+
 // Draw layout: [mode, shape|…, opt, api, far-deadline flag, plan, k…]
 //   mode 0 = catalogue shape, 1 = random generated script in a loop wrapper
 //   plan 0 = never, 1 = at clock k, 2 = already expired, 3 = from inside host call j,
 //        4 = deadline on the simulated clock with slow host functions
 
 func (p *c09) Enumerate(tier string) [][]int32 {
+	p.tier = tier
 	var out [][]int32
 	maxK := 260
 	if tier == "thorough" {
 		maxK = 5000
+	}
+	if tier == "thorough" {
+		for si := range p.shapes {
+			out = append(out, []int32{2, int32(si), int32(si % 2)})
+		}
 	}
 	for si, s := range p.shapes {
 		lim := maxK
@@ -137,6 +149,44 @@ func (p *c09) Enumerate(tier string) [][]int32 {
 		}
 	}
 	return out
+}
+
+// realTimer runs a catalogue shape under a genuine context.WithTimeout: the
+// only place where wall-clock time is involved (thorough tier only).  It can
+// fail only if the script outlives a 30 ms deadline by more than two seconds,
+// twice in a row.
+func (p *c09) realTimer(c *verifsim.Chooser, st *Stats, render bool) *Outcome {
+	o := &Outcome{}
+	s := p.shapes[c.Intn(len(p.shapes))]
+	opt := c.Intn(2) == 0
+	currentDesc.Store("real timer " + s.Family)
+	o.Digest.Str("real-timer" + s.Text)
+	var last time.Duration
+	for attempt := 0; attempt < 2; attempt++ {
+		ctx, cancel := context.WithTimeout(context.Background(), 30*time.Millisecond)
+		e := evalfilter.New(s.Text)
+		h := newHost(nil)
+		h.install(e)
+		e.SetContext(ctx)
+		if err, esc := doPrepare(e, opt); err != nil || esc != nil {
+			cancel()
+			return o
+		}
+		t0 := time.Now()
+		r := doExecute(e, nil)
+		last = time.Since(t0)
+		cancel()
+		if render {
+			o.Sample = map[string]interface{}{"mode": "real context.WithTimeout(30ms)", "script": s.Text, "result": r.String(), "returned_after": last.String()}
+		}
+		if last < 2*time.Second {
+			st.fault("real-timer-runs")
+			o.Nontrivial = true
+			return o
+		}
+	}
+	o.violate("C09/real-timer-late", s.Family, "with a real 30 ms deadline Execute returned only after %v (twice)", last)
+	return o
 }
 
 func (p *c09) RandomRuns(tier string) int {
@@ -185,7 +235,16 @@ func (p *c09) twin(text string, opt bool, names []string, need int64) *c09Twin {
 
 func (p *c09) Run(c *verifsim.Chooser, st *Stats, render bool) *Outcome {
 	o := &Outcome{}
-	mode := c.Intn(2)
+	// modes: 0 catalogue shape, 1 generated script, 2 real timer (explicit
+	// traces of the thorough tier only; one random draw in 64 otherwise)
+	mode := c.Intn(64)
+	if mode == 2 || mode == 63 {
+		if p.tier == "thorough" {
+			return p.realTimer(c, st, render)
+		}
+		mode = 0
+	}
+	mode %= 2
 	var text, family string
 	names := c09Vars
 	rec := false
